@@ -207,7 +207,7 @@ def jobs(tier):
             cfgs.append((2, 1, 2, 3, True, 2, 1, ref_kind))
     pre = [(2, 1, 2, 6, True, 1, np.inf, 'none')] if q else [(2, 1, 2, 6, True, 1, np.inf, 'none'), (2, 1, 2, 6, False, 2, 1, 'sym'), (2, 1, 2, 3, True, 2, np.inf, 'zero')]
     for (d, lmin, lmax, v, boundary, out_len, norm, ref_kind) in pre:
-        c = cap - (18 if not boundary else 0)
+        c = cap if boundary else 27 - 18
         js.append(Job('stop-second-run[d=%d,l=%d-%d,v=%d,%s,out=%d,norm=%s,ref=%s]' % (d, lmin, lmax, v, 'b' if boundary else 'nb', out_len, 'inf' if norm == np.inf else '1', ref_kind),
                       stop_rules, {'d': d, 'lmin': lmin, 'lmax': lmax, 'version': v, 'boundary': boundary, 'out_len': out_len, 'norm': norm, 'ref_kind': ref_kind,
                                    'cap': c, 'pool': pool, 'prerun': True},
